@@ -364,6 +364,8 @@ class KeyEval:
 
     def loop_store(self, func, store, sl, env, depth):
         """d[key] = value / d[MAP[key]] = value inside `for key, value in X.items(): if key [not] in L:`"""
+        if isinstance(sl, ast.Name):
+            sl = q.resolve_local(func, sl)  # head_param = MAP[param]; d[head_param] = value
         loop = None
         for a in ancestors(store):
             if isinstance(a, ast.For):
